@@ -483,6 +483,9 @@ func (e *Exec) callFunc(st *State, call *ast.CallExpr, fn *types.Func, recv Valu
 		}
 		if e.prog.specs.NoEffect[name] || e.prog.specs.NoEffect[origin.Pkg().Name()+".*"] {
 			e.calleesUsed[name+" (no effect)"] = true
+			for _, a := range args {
+				e.havocPointee(st, a)
+			}
 			return e.freshResults(st, rt, "r")
 		}
 		panic(unsupported("library callee without assumed contract: " + name))
@@ -514,6 +517,7 @@ func (e *Exec) callFunc(st *State, call *ast.CallExpr, fn *types.Func, recv Valu
 			if clo, ok := a.(ClosureVal); ok {
 				e.runCallback(st, clo, call)
 			}
+			e.havocPointee(st, a)
 		}
 	}
 	return res
@@ -1304,4 +1308,29 @@ func (e *Exec) convWrapOK(from, to types.Type) bool {
 		}
 	}
 	return false
+}
+
+// havocPointee: a library function given a pointer to a local variable (directly or boxed into an
+// interface) may write through it; the variable gets an arbitrary well-typed value afterwards.
+func (e *Exec) havocPointee(st *State, a Value) {
+	var pv PtrVal
+	switch x := a.(type) {
+	case PtrVal:
+		pv = x
+	case Scalar:
+		if x.T.Op == "var" {
+			if b, ok := e.boxedPtrs[x.T.Name]; ok {
+				pv = b
+			}
+		}
+	}
+	ll, ok := pv.Loc.(*LocalLoc)
+	if !ok || pv.Loc == nil {
+		return
+	}
+	t := ll.Typ
+	if reprOf(t) == rOpaque {
+		return
+	}
+	e.storeLoc(st, ll, e.symbolicValue(st, t, "out"))
 }
